@@ -238,6 +238,17 @@ func init() {
 			}
 			return args[1]
 		},
+		// vIdealEq(a, b): structural equality in the ideal-crypto model (distinct
+		// ideal outputs are never equal); natively bytes.Equal.
+		"vIdealEq": func(ex *Exec, g *Goroutine, cs *callSite, args []Value) Value {
+			return ex.eqBytes(ex.sliceTerms(args[0]), ex.sliceTerms(args[1]))
+		},
+		// vMentions(b, secret): does the term of any byte of b depend on the
+		// stream/bytes of secret? (syntactic information flow, checked at a fresh
+		// symbolic index for functional arrays)
+		"vMentions": func(ex *Exec, g *Goroutine, cs *callSite, args []Value) Value {
+			return ex.C.Bool(ex.mentions(args[0], args[1]))
+		},
 		"vIsSymbolicRun": func(ex *Exec, g *Goroutine, cs *callSite, args []Value) Value {
 			return ex.C.True()
 		},
@@ -256,4 +267,38 @@ func (ex *Exec) assert(g *Goroutine, c *Term, msg string, cs *callSite) {
 		panic(pathEnd{"assert false"})
 	}
 	ex.addPC(c)
+}
+
+// symbolsOfBytes collects the free symbols of every byte term of v.
+func (ex *Exec) symbolsOfBytes(v Value) map[int]bool {
+	out := map[int]bool{}
+	add := func(t *Term) {
+		for _, s := range ex.C.SymbolsOf(t) {
+			out[s] = true
+		}
+	}
+	s, ok := v.(Slice)
+	if !ok || s.Arr == nil {
+		return out
+	}
+	if n, ok := ex.constOf(s.Len); ok && (s.Arr.isDense() || n <= 64) {
+		for i := int64(0); i < n; i++ {
+			add(ex.loadElem(s.Arr, ex.C.Bin(OAdd, s.Off, ex.i64(i))).(*Term))
+		}
+		return out
+	}
+	w := ex.C.Fresh("witness", BV(64))
+	add(ex.loadElem(s.Arr, ex.C.Bin(OAdd, s.Off, w)).(*Term))
+	delete(out, w.ID)
+	return out
+}
+
+func (ex *Exec) mentions(b, secret Value) bool {
+	bs := ex.symbolsOfBytes(b)
+	for s := range ex.symbolsOfBytes(secret) {
+		if bs[s] {
+			return true
+		}
+	}
+	return false
 }
